@@ -84,7 +84,12 @@ func (v *Vue) interpolateToWriter(ctx VueContext, w io.Writer, input string) err
 			var ok bool
 			val, ok = ctx.stack.Resolve(expr)
 			if !ok {
+				// Not a path that resolves: it may be a literal, a negation or an operator written
+				// without surrounding spaces. Evaluate it as an expression; an undefined name stays nil.
 				val = nil
+				if res, evalErr := v.exprEval.Eval(expr, ctx.stack.EnvMap()); evalErr == nil {
+					val = res
+				}
 			}
 		}
 
